@@ -11,7 +11,7 @@ T = {
          "Trusts the kernel's loopback of local multicast on eth0, per-sender ordering on loopback, and the membership model of Linux source filters (operations that trigger the kernel's mode switch on an empty source list are not generated); known finding loop-getter-initial is probed and excluded.",
          "model-based and round-trip property-based testing over real UDP/multicast sockets (rapid)", "DESIGN.md §4 C12"),
  "C13": ("fault_enumeration",
-         "Fault enumeration plus property testing: (a) for every constructor the k-th descriptor allocation is made to fail with EMFILE for every k below what success needs (descriptor table filled, k slots freed), plus refused/conflicting/unroutable/failing-option/bad-response faults, each followed by a /proc/self/fd census comparison - the table is enumerated completely; (b) rapid-generated histories of repeated Close interleaved with creation of other objects check that only owned descriptors are ever closed (census + inode identity of every other live object); (c) rapid-generated garbage-collection points while reads and/or writes are deferred and the program holds no reference (finalizer sentinels captured by the callbacks); (d) chains of objects each created inside the completion callback of its predecessor, which closes itself there (the new object gets the recycled descriptor number); (e) websocket sessions on one Stream ended with CloseNextLayer and restarted from inside or after the cancelled callbacks: the ended session's socket must be gone, the next one's open and usable.",
+         "Fault enumeration plus property testing: (a) for every constructor the k-th descriptor allocation is made to fail with EMFILE for every k below what success needs (descriptor table filled, k slots freed), plus refused/conflicting/unroutable/failing-option/bad-response faults, each followed by a /proc/self/fd census comparison - the table is enumerated completely; (b) rapid-generated histories of repeated Close interleaved with creation of other objects check that only owned descriptors are ever closed (census + inode identity of every other live object); (c) rapid-generated garbage-collection points while reads and/or writes are deferred and the program holds no reference (finalizer sentinels captured by the callbacks); (d) chains of objects each created inside the completion callback of its predecessor, which closes itself there (the new object gets the recycled descriptor number); (e) objects closed after their IO was closed (the object's own descriptor must be released whatever the poller answers); (f) websocket sessions on one Stream ended with CloseNextLayer and restarted from inside or after the cancelled callbacks: the ended session's socket must be gone, the next one's open and usable.",
          "Trusts /proc/self/fd, fstat inode identity and Go finalizers after forced double collection; websocket handshakes are explored with EMFILE at k=0 only (an in-process server competes for freed slots otherwise); GC points are sampled at operation boundaries.",
          "fault enumeration (EMFILE at the k-th allocation, protocol faults) + stateful property-based testing (rapid)", "DESIGN.md §4 C13"),
  "C17": ("exploration",
@@ -39,7 +39,7 @@ T = {
          "Trusts the shadow ledger (ops whose callback has not run, armed timers, posted handlers) and the 10 s watchdog (normal case < 50 ms); Post from inside posted handlers is left to C05.",
          "stateful property-based testing against a shadow ledger + signal injection (rapid)", "DESIGN.md §4 C03"),
  "C04": ("exploration",
-         "Model-based property testing (rapid) with real timerfds: generated schedules/cancels/closes from top level and from handlers of other timers and of a socket in the same poll batch; per-schedule ids decide which callbacks may run; one-sided timing oracle (elapsed >= delay - 50us, monotonic clock) and count-bounded liveness after sleeping past the deadlines; a second test blocks the loop in the poller across deadlines of 100..6000 us (fractional milliseconds) so that 'never early' is observed at the moment of expiry; a third runs 2..4 independent loops on their own threads at full speed (callbacks on the right thread, far-away schedules untouched). Bounded search in real time (1..15 ms delays).",
+         "Model-based property testing (rapid) with real timerfds: generated schedules/cancels/closes from top level and from handlers of other timers and of a socket in the same poll batch; per-schedule ids decide which callbacks may run; one-sided timing oracle (elapsed >= delay - 50us, monotonic clock) and count-bounded liveness after sleeping past the deadlines; a second test blocks the loop in the poller across deadlines of 100..6000 us (fractional milliseconds) so that 'never early' is observed at the moment of expiry; a third runs 2..4 independent loops on their own threads at full speed (callbacks on the right thread, far-away schedules untouched); a fourth forgets scheduled timers after a refused second schedule and forces garbage collections (finalizer sentinels). Bounded search in real time (1..15 ms delays).",
          "Real time cannot be virtualised without rewriting the code under test: tolerance 50 us, liveness margin 5 ms; load only lengthens sleeps (safe direction).",
          "stateful property-based testing with a per-schedule reference model (rapid)", "DESIGN.md §4 C04"),
  "C14": ("exploration",
